@@ -504,6 +504,60 @@ fn scenario<C: MlsConfig>(rng: &mut Rng, mk: Mk<C>, out: &mut Out, qa_mem: &mut 
             }
         }
     }
+    // ---- re-join on a storage that still holds prior epochs of the earlier membership ----------------------------------------
+    // the repository only accepts a prior epoch whose id continues the stored ones (`insert`): after P removed a subject and
+    // added it again, the first commit the new group object processes inserts the epoch it joined at (known finding F14 when
+    // that is refused; here only the repository verdict is compared with the model: `repo.reload`, `repo.ins`)
+    if rng.chance(1, 2) {
+        for (i, _tag) in [(1usize, "mem"), (2usize, "sql")] {
+            if w.members[i].group.is_none() || !w.members[i].wrote {
+                continue;
+            }
+            let leaf = w.group(i).current_member_index();
+            let (_, o) = w.with_group(0, |g| g.commit_builder().remove_member(leaf)?.build());
+            if o.is_none() {
+                continue;
+            }
+            w.with_group(0, |g| g.apply_pending_commit());
+            let removal = o.unwrap().commit_message;
+            for j in 1..w.members.len() {
+                if w.members[j].group.is_some() {
+                    let m = removal.clone();
+                    let _ = w.with_group(j, |g| g.process_incoming_message(m));
+                }
+            }
+            w.members[i].group = None;
+            let Ok(kp) = w.members[i].client.generate_key_package_message(Default::default(), Default::default(), None) else { continue };
+            let (_, o) = w.with_group(0, |g| g.commit_builder().add_member(kp)?.build());
+            let Some(o) = o else { continue };
+            w.with_group(0, |g| g.apply_pending_commit());
+            for j in 1..w.members.len() {
+                if w.members[j].group.is_some() {
+                    let m = o.commit_message.clone();
+                    let _ = w.with_group(j, |g| g.process_incoming_message(m));
+                }
+            }
+            let joined = o.welcome_messages.iter().find_map(|wm| w.members[i].client.join_group(None, wm, None).ok().map(|x| x.0));
+            let Some(g) = joined else { continue };
+            let joined_at = g.current_epoch();
+            w.members[i].group = Some(g);
+            // the next commit makes the re-joined member insert the epoch it joined at
+            let (_, o) = w.with_group(0, |g| g.commit(vec![]));
+            let Some(o) = o else { continue };
+            w.with_group(0, |g| g.apply_pending_commit());
+            let m = o.commit_message.clone();
+            let (r, _) = w.with_group(i, |g| g.process_incoming_message(m));
+            let qa: &mut QA = if i == 1 { &mut *qa_mem } else { &mut *qa_sql };
+            qa.put("repo.reload", "ok");
+            match &r {
+                Res::Ok => qa.put(&format!("repo.ins {joined_at}"), "ok"),
+                Res::Err(e) if e == "InvalidEpoch" => qa.put(&format!("repo.ins {joined_at}"), "err"),
+                _ => {}
+            }
+            out.cover.insert(format!("rejoin-on-old-storage:{}", r.s()));
+            break;
+        }
+    }
     if out.samples.len() < 4 {
         out.samples.push(format!("ret={ret} steps={steps} q_state={q_state}"));
     }
